@@ -19,7 +19,17 @@ RULE = ("cases = corpus + EVERY history of length <=5 (thorough: <=6) creating a
         "with all handles among those created so far, live or not (quick 8,913 / thorough 181,502 histories; count recomputed into "
         "coverage.exhaustive_histories) + 10 fixed support graphs (chain, two diamonds, cycles, shared/duplicated premises, "
         "explicit+logical, premise-less) each followed by every ordered selection of up to 3 retractions + N random histories "
-        "of 3..10 operations over up to 7 facts (7 of 8 well-formed; build-then-retract phases; insert and insert_explicit both driven). "
+        "of 3..10 operations over up to 7 facts (7 of 8 well-formed; build-then-retract phases; insert and insert_explicit both driven) "
+        "+ three families beyond the small bound (about 950 well-formed histories in the quick tier, more and larger in thorough): "
+        "DEEP derivation graphs (chains of every length 30..60 and 63..200 [thorough ..500] with the root or a fact near the root "
+        "retracted, exactly 32/33/34 levels below the retracted fact, deep chains hanging off both kinds of diamond, links that need / "
+        "are also supported by a second fact, combs, joined chains, random mostly-chain graphs of 34..70 facts), LONG SESSIONS on one "
+        "engine (8 kinds of multiply-justified fact losing one premise early, possibly one half-way, and the last one after unrelated "
+        "insert/retract/cascade traffic that brings the number of retracted handles to 48..130 [thorough ..260], every value 62..68 "
+        "for every kind; random sessions of 70..180 [thorough ..400] operations with ~40 % retractions), WIDE justifications (4..8, 12 "
+        "and 16 [thorough 3..16] premises in ascending, descending, rotated, swapped, interleaved and shuffled handle order, every "
+        "single premise retracted in turn on a fresh engine, plus dependents, prior unrelated retractions, two wide justifications, "
+        "narrow+wide, derived premises, duplicated premises, stacked wide joins). "
         "Each history is run on IncrementalEngine (real code) plus a stand-alone TruthMaintenanceSystem fed the same calls "
         "(to observe the return value of retract_with_cascade) and on the Lean model; after EVERY operation the result, "
         "working_memory().get(h) for every handle, is_logical/is_explicit/has_valid_justification and tms().stats() are diffed "
